@@ -158,7 +158,8 @@ fn build_member(idx: usize, n: usize, x: usize, cfg: &Value, picker: &mut Picker
                 if sym_values {
                     match picker.pick(maxv / 2 + 1, maxv) {
                         Some(v) => (v, true),
-                        None => (maxv, false),
+                        // no distinct stand-in left: a concrete value that is never registered as a variable (the small reserved numbers)
+                        None => (maxv.min(5), false),
                     }
                 } else {
                     (maxv - (j as u64 % (maxv / 2 + 1)), false)
@@ -172,7 +173,8 @@ fn build_member(idx: usize, n: usize, x: usize, cfg: &Value, picker: &mut Picker
             // a symbolic promise needs a symbolic value (the tie v = p + sum b 2^i); otherwise it stays a concrete number
             Value::String(s) if s == "sym" => match if vsym || !sym_values { picker.pick(7.min(v), v / 2) } else { None } {
                 Some(p) => (Some(p), true),
-                None => (Some(v / 2), false),
+                // concrete fall-back: a small reserved number (never registered as a variable), not above the value
+                None => (Some(v.min(3)), false),
             },
             Value::String(s) if s == "eq" => (Some(v), false),
             Value::String(s) => (Some(s.parse::<u64>().expect("promise")), false),
